@@ -137,7 +137,7 @@ def sync_run(case):
                 snap = list(log)
                 try:
                     g.close()
-                except RuntimeError:      # a finally clause that yields again
+                except BaseException:     # a finally clause that yields again, raises, ... (cleanup only)
                     pass
                 return snap, "S"
             if y.d in taken:
@@ -232,7 +232,7 @@ def gen(rng, tier):
                         if tier == "quick" and rng.random() > 0.5:
                             continue
                         cases.append(case)
-    for _ in range(350 if tier == "quick" else 8000):
+    for _ in range(350 if tier == "quick" else 4000):
         variant = "gen" if rng.random() < 0.6 else "coro"
         nd = rng.randrange(1, 11)
         fresh = [] if variant == "coro" else None
@@ -310,7 +310,7 @@ SPEC = Spec(
     histogram=lambda c, o: c["variant"] + (" finished" if "R:" in o else " suspended"),
     describe=lambda c: {**c, "source": source(c["body"], c["variant"])},
     rule="six small programs x every success/failure assignment x every arrival order x every pre-fired prefix (with and "
-         "without the last Deferred firing) as generators (quick: 50% sample); 350 (quick) / 8000 (thorough) random "
+         "without the last Deferred firing) as generators (quick: 50% sample); 350 (quick) / 4000 (thorough) random "
          "structured programs of depth <= 4 (await, plain yield, mark, raise, return, seq, try/except, try/finally, "
          "loops) over up to 10 Deferreds, 60% as @inlineCallbacks generators, 40% as coroutines under ensureDeferred "
          "(each Deferred awaited once), random pre-fired subset and arrival order; non-trivial = at least two awaits and "
